@@ -37,6 +37,12 @@ def gen_program(rng):
     # string literals that span lines (raw line feeds, blanks and tabs before and after them) and |identifiers| with blanks / line feeds
     vals += ["\"two  \n\tlines\"", "\"trailing blank \nnext\t\n  indented\"", "\"\n\"", "|my var|", "(+ |my var| 1)", "|multi\nline|", "(list |my var| |multi\nline|)"]
     forms += ["(define |my var| 3)", "(define |multi\nline| 4)"]
+    # a string literal of several lines whose lines begin like other syntax: #! ; #| |# #; ( ) ' " and blanks
+    def hostile_line():
+        start = rng.choice(["#!", "#!/usr/bin/env ruschm", ";", ";;; note", "#|", "|#", "#;", "(", ")", "'", "\\\"", " ", "\t", "", "#\\a", "...", "|", "#t", "(define x"])
+        return start + rng.choice(["", " rest of the line", "x", " ", "  (tail"])
+    vals.append("\"%s\"" % "\n".join(hostile_line() for _ in range(rng.randint(2, 5))))
+    vals.append("'(1 \"%s\" 2)" % "\n".join(hostile_line() for _ in range(rng.randint(2, 3))))
     if use_lib:
         vals += ["lib-value", "(lib-add 1 2)"]
     for _ in range(n):
@@ -177,15 +183,17 @@ def run(tier, seed):
             lines = [l for l in se.split("\n") if l.strip()]
             if rc == 0:
                 ctx.violation(dict(base, what="exit status 0 although a form failed", dedupe="fail-rc0|%s" % c["kind"]), replay); continue
-            if len(lines) != 1 or not lines[0].startswith(c["arg"]):
-                ctx.violation(dict(base, what="expected exactly one diagnostic line starting with the file name", stderr=se[-300:], dedupe="diag-shape"), replay); continue
-            rest = lines[0][len(c["arg"]):]
-            m = re.match(r"^:(\d+):(\d+)\s+(.*)$", rest)
+            # one diagnostic: it starts with the file name; its message may quote source text that spans lines (an unterminated |identifier|), so further
+            # lines are accepted when the whole text equals the library interface's message (compared below), but no second line names the file
+            if not lines or not lines[0].startswith(c["arg"]) or sum(1 for l in lines if l.startswith(c["arg"] + ":")) > 1:
+                ctx.violation(dict(base, what="expected exactly one diagnostic starting with the file name", stderr=se[-300:], dedupe="diag-shape"), replay); continue
+            rest = se.strip("\n")[len(c["arg"]):]
+            m = re.match(r"^:(\d+):(\d+)\s+(.*)$", rest, re.S)
             emsg = (step.get("err") or {}).get("msg")
             if "err" not in step:
                 ctx.violation(dict(base, what="the library interface did not report the failure the CLI reported", api=step, dedupe="api-noerr"), replay); continue
             msg = m.group(3) if m else rest.strip()
-            if msg != emsg:
+            if msg.strip() != (emsg or "").strip():
                 ctx.violation(dict(base, what="diagnostic message differs from the library interface's error message", cli=msg, api=emsg, dedupe="msg"), replay); continue
             if c["kind"] == "fault":
                 if not m:
